@@ -80,11 +80,11 @@ Construct(c, form, ks) ==
 \* an OBJECT of another library class supplied to the constructor (bare, or inside a list):
 \* either rejected, or converted - but the new object must then hold only members of ITS class
 OtherCls == Cls \cup {"Quaternion", "Plucker"}
-ConstructFromObject(c, o, form) ==
+ConstructFromObject(c, o, form, n) ==        \* n: number of values the supplied object holds
   /\ call.op = "none"
   /\ c # o
   /\ form \in {"bare", "list"}
-  /\ call' = [op |-> "construct-from-object", cls |-> c, other |-> o, form |-> form]
+  /\ call' = [op |-> "construct-from-object", cls |-> c, other |-> o, form |-> form, len |-> n]
   /\ expect' = "reject-or-member"
 
 \* an object of ANOTHER class (a subclass such as SE3 for SO3 included) supplied through the list interface of a
@@ -107,7 +107,7 @@ AllKinds == UNION { Kinds(c) : c \in Cls } \cup {"identity", "near-identity", "n
 
 Next ==
   \/ \E c \in Cls : \E form \in Forms : \E n \in 1..MaxItems : \E ks \in KindSeqs(c, n) : Construct(c, form, ks)
-  \/ \E c \in Cls : \E o \in OtherCls : \E form \in Forms : ConstructFromObject(c, o, form)
+  \/ \E c \in Cls : \E o \in OtherCls : \E form \in Forms : \E n \in 1..2 : ConstructFromObject(c, o, form, n)
   \/ \E p \in Preds : \E k \in AllKinds : Predicate(p, k)
   \/ \E c \in Cls : \E o \in OtherCls : \E m \in Mutators : \E n \in 1..2 : MutateWithObject(c, o, m, n)
 
